@@ -100,6 +100,7 @@ typedef struct {
     m_evt_ps_t msg;
     m_ps_flags flags;
     ev_src_t *sub;
+    void *autofree;                         // Ref counted holder of msg.data, shared by every recipient's copy (M_PS_AUTOFREE only)
 } ps_priv_t;
 
 extern const char *src_names[];
